@@ -579,7 +579,12 @@ def schema_model_cases(ctx):
 
 
 def run(ctx):
+    run_entries(ctx)
+    # last, so that the streams above are the same as before this correspondence existed
     schema_model_cases(ctx)
+
+
+def run_entries(ctx):
     cs = cases(ctx)
     res = run_total(ctx, cs)
     confirm_hangs(ctx, cs, res)
@@ -595,6 +600,10 @@ def run(ctx):
             what = {"panic": "panics", "hang": "does not return within the watchdog limit", "crash": "crashes the process (stack overflow or fatal error)"}[cls]
             # F-C04-6 (open): npm.Resolve does not terminate on some alias cycles (p -> q=npm:r, r -> q=npm:p)
             if cls == "hang" and c[0] == "resolve" and c[1] == 0 and any(t and t[0][0] == 8 for p in c[2] for ve in p[1:] for (t, _, _) in ve[2]):
+                ctx.known_hits["F-C04-6"] = ctx.known_hits.get("F-C04-6", 0) + 1
+                continue
+            if cls == "hang" and c[0] == "resolveschema" and c[1] == 0 and b"KnownAs" in c[2]:
+                # the same finding reached through the schema text (aliased requirements are written KnownAs x|)
                 ctx.known_hits["F-C04-6"] = ctx.known_hits.get("F-C04-6", 0) + 1
                 continue
             if (key, cls) not in seen or len(ctx.violations) < 30:
